@@ -1,6 +1,7 @@
 import RtcModel.C07Rtp
 import RtcModel.C07Ice
 import RtcModel.C07Dtls
+import RtcModel.C07Sctp
 import RtcModel.Drv.Util
 /-! Driver for C07: one decoder model per stream; output `ok <digest>` / `err <error>` / `panic`. -/
 namespace RtcModel.Drv.C07
@@ -35,6 +36,8 @@ def bufStream (stream : String) : Option (List UInt8 → String) :=
   | "cert" => some fun bs => showRes (runB Dtls.certificateDecode bs) nats
   | "cke" => some fun bs => showRes (runB Dtls.clientKeyExchangeDecode bs) nats
   | "finished" => some fun bs => showRes (runB Dtls.finishedDecode bs) nats
+  | "dcepopen" => some fun bs => showRes (runB Sctp.dcepOpenUnmarshal bs) nats
+  | "dcepack" => some fun bs => showRes (runS Sctp.dcepAckUnmarshal bs) toString
   | _ => none
 
 def handleSpecial (stream : String) (args : List String) : String :=
@@ -89,6 +92,13 @@ def handleSpecial (stream : String) (args : List String) : String :=
     match bl.toNat?, len.toNat?, prov.toNat? with
     | some bl, some len, some prov => showRes (Ice.turnTcpRecv bl len [prov] (Buf.ofList []) 0) toString
     | _, _, _ => "bad-args"
+  | "sctp", [crc, hx] =>
+    match unhex hx with
+    | some bs => match runB (Sctp.handlePacket (crc = "1")) bs with
+      | .ok _ _ _ => "ok"
+      | .err e _ => "err " ++ e
+      | .panic s => if s = "hang" then "hang" else "panic"
+    | none => "bad-hex"
   | "rtx", [hx] =>
     match unhex hx with
     | some bs => showRes (runS Ice.unwrapRtx bs) (fun r => match r with | none => "none" | some (o, l) => s!"{o} {l}")
